@@ -450,12 +450,18 @@ fn read_arg(rd: &mut Rd, kind: &str) -> R<Arg> {
                 Some(b'\'') => b'\'',
                 _ => return Err(format!("no string quotes around {:?}", String::from_utf8_lossy(data))),
             };
-            if data.len() < 2 || data[data.len() - 1] != q {
+            if data[data.len() - 1] != q {
                 return Err(format!(
                     "string quote {:?} not found at both ends of {:?}",
                     q as char,
                     String::from_utf8_lossy(data)
                 ));
+            }
+            if data.len() == 1 {
+                // pickletools accepts a lone quote character (startswith and endswith both hold) as the
+                // empty string; the unpickler itself does not. O1 follows pickletools here so that it
+                // always agrees with genops; C04 flags the lone quote as "not properly quoted".
+                return Ok(Arg::Bytes(s + 1, s + 1));
             }
             check_escape_decode_ascii(&data[1..data.len() - 1])?;
             Ok(Arg::Bytes(s + 1, e - 1))
